@@ -137,6 +137,10 @@ def convex3d(draw, max_n=30, kinds=("ellipsoid", "lattice", "prismatoid", "tabul
         regular = draw(st.booleans()) or sub == "antiprism"
         return {"kind": kind, "sub": sub, "n": n, "regular": regular, "noise": draw(noise(2 * n + 4)),
                 "logh": draw(f(-1.3, 1.3)), "top": draw(f(0.3, 0.9)), "box": [draw(f(-1, 1)) for _ in range(3)]}
+    if kind == "sliver":
+        # a prism over a needle-thin triangle (smallest angle 1e-5..1e-3 rad): faces whose area is a tiny fraction of
+        # the squared edge lengths that span them
+        return {"kind": kind, "w": draw(f(0.0, 2.3)), "logt": draw(f(-5.0, -3.0)), "apex": draw(f(0.2, 0.8)), "th": draw(f(-1.0, 1.0))}
     if kind == "roofed":
         # a box with a very shallow pyramid on its top face: neighbouring facets that are nearly - but, at 2e-6..1e-2
         # of the size, unmistakably not - coplanar (dihedral angles a hair below pi)
@@ -176,6 +180,13 @@ def build_convex(case):
         ax = 10.0 ** np.asarray(case["axes"], dtype=float)
         V = P * ax
         return {"verts": V, "lattice": False, "aspect": float(ax.max() / ax.min())}
+    if k == "sliver":
+        w = 10.0 ** case["w"]
+        hgt = w * 10.0 ** case["logt"]
+        th = 10.0 ** case["th"]
+        tri = [[0.0, 0.0], [w, 0.0], [case["apex"] * w, hgt]]
+        V = [[x, y, z] for z in (0.0, th) for x, y in tri]
+        return {"verts": np.array(V, dtype=float), "lattice": False, "aspect": float(w / hgt)}
     if k == "roofed":
         a, b, h = (10.0 ** np.asarray(case["box"], dtype=float)).tolist()
         V = [[x, y, z] for x in (0.0, a) for y in (0.0, b) for z in (0.0, h)]
